@@ -34,16 +34,29 @@ StatExpansion(mode)   example.ExpansionStrategy with parameters.
    mode 10          cycle + reverse order.
    mode 11 "reindex" if every name is <base>_<d> with d >= 1 all indices are lowered by one
                     (k_1 -> k_0, k_2 -> k_1), otherwise keep: a finite universe for searches.
+   ZERO statistics: a statistic (name, "#") counts the letter "#", which is in no alphabet: it is 0
+   on every word (a parameter whose minimum and only value is 0).
+   mode 12 "drop-zero"  the child drops every zero statistic (no dictionary entry for it: the parent
+                    parameter is one of DisjointUnion.zeroes); names kept.  Reversed (Complement) the
+                    END class of an equivalence path tracks a statistic the start class does not:
+                    EquivalencePathRule.constructor passes fixed_values = {z: 0}.
+   mode 13 "add-zero"   names kept, the child tracks one MORE statistic ("zz", "#") that no parent
+                    parameter is mapped to and that is 0 on every object (the benign unmapped case).
+   (mode 3 on StatRelabel: the child tracks one more GENUINE statistic e_<letter>: the unmapped
+   child parameter of the open finding, as an equivalence / equivalence path.)
    A LIST of modes gives one mode per child (cycled): one factor re-indexes, the other keeps.
    A DICT {"maps": [[name or "" per PARENT statistic] ...], "rev": [0/1 ...]} (both cycled
    over the children) names every child statistic explicitly ("" = keep) -- arbitrary
    injections into parent names + new names, and merges; a map that gives one name to
    statistics of different letters is not a rule: the strategy does not apply.
+StatExpansionLast(mode)  the same with the one-word child listed last (equivalences whose non-empty child
+                    is not child 0).
 StatRemoveFront(mode) example.RemoveFrontOfPrefix with parameters (letter counts add up
-                    over the concatenation).  Same modes (mode 3 = keep).
+                    over the concatenation).  Same modes (mode 3: the factors track one more statistic).
 StatRemoveFrontLW(mode, rest_pos)  words_ext.RemoveFrontLetterwise with parameters: products
                     with three and more factors, the non-atom factor last / first / in the middle.
 StatRelabel(mode)   unary union onto the same words with re-named statistics (any mode above).
+StatUnaryProduct(mode)  the same as a product with a SINGLE factor (an equivalence since fix 25e10f1).
 StatAtom            verification strategy for one-word classes with parameters
                     (the library's AtomStrategy refuses classes with parameters).
 
@@ -53,7 +66,7 @@ import re
 from collections import Counter
 from typing import Optional, Tuple
 
-from comb_spec_searcher import CartesianProductStrategy, DisjointUnionStrategy, StrategyPack
+from comb_spec_searcher import AtomStrategy, CartesianProductStrategy, DisjointUnionStrategy, StrategyPack
 from comb_spec_searcher.exception import StrategyDoesNotApply
 from comb_spec_searcher.strategies.strategy import StrategyFactory
 from comb_spec_searcher.strategies.strategy import VerificationStrategy
@@ -122,6 +135,7 @@ class StatWord(AvoidingWithPrefix):
 
 
 _INDEXED = re.compile(r"^(.*)_(\d+)$")
+ZERO_LETTER = "#"      # in no alphabet: a statistic counting it is 0 on every word
 
 
 def _mode_of_child(mode, idx):
@@ -171,7 +185,9 @@ def _child_stats(stats, mode, keep_letters=None, extra_letter=None, idx=0):
     """-> (child stats, extra_parameters dict parent name -> child name), or None when the mode
     does not describe a rule on these statistics"""
     mode = _mode_of_child(mode, idx)
-    kept = [(j, n, l) for j, (n, l) in enumerate(stats) if keep_letters is None or l in keep_letters]
+    kept = [(j, n, l) for j, (n, l) in enumerate(stats)
+            if (keep_letters is None or l in keep_letters or (l == ZERO_LETTER and mode == 13))
+            and not (mode == 12 and l == ZERO_LETTER)]
     new, rev = _child_names(kept, mode, idx)
     out, ep, letter = [], {}, {}
     for (_, n, l), c in zip(kept, new):
@@ -184,6 +200,8 @@ def _child_stats(stats, mode, keep_letters=None, extra_letter=None, idx=0):
         out.reverse()
     if mode == 3 and extra_letter is not None and (keep_letters is None or extra_letter in keep_letters):
         out.append(("e_" + extra_letter, extra_letter))
+    if mode == 13 and ("zz", ZERO_LETTER) not in out and "zz" not in [c for c, _ in out]:
+        out.append(("zz", ZERO_LETTER))
     return tuple(out), ep
 
 
@@ -247,11 +265,35 @@ class StatExpansion(_StatMixin, ExpansionStrategy):
     BASE = ExpansionStrategy
 
 
-class StatRemoveFront(_StatMixin, RemoveFrontOfPrefix):
-    BASE = RemoveFrontOfPrefix
+class StatExpansionLast(StatExpansion):
+    """StatExpansion with the one-word child listed LAST instead of first: when the rule is an equivalence
+    (every extension of the prefix is empty) the non-empty child is not child 0, so that
+    EquivalenceRule.child_idx and the index used for the reversed rule's dictionary differ from 0"""
 
-    def _extra_letter(self, comb_class):
-        return None
+    def _children(self, comb_class):
+        plain = self.BASE.decomposition_function(self, comb_class)
+        if plain is None:
+            return None
+        plain = tuple(plain[1:]) + (plain[0],)
+        kids, eps = [], []
+        for i, c in enumerate(plain):
+            keep = set(c.prefix) if c.just_prefix else None
+            r = _child_stats(comb_class.stats, self.mode, keep, self._extra_letter(comb_class), i)
+            if r is None:
+                return None
+            kids.append(_with_stats(c, r[0]))
+            eps.append(r[1])
+        return tuple(kids), tuple(eps)
+
+    def forward_map(self, comb_class, obj, children=None):
+        first = ExpansionStrategy.forward_map(self, comb_class, obj, None)
+        return tuple(first[1:]) + (first[0],)
+
+
+class StatRemoveFront(_StatMixin, RemoveFrontOfPrefix):
+    """mode 3: both factors track one more (genuine) statistic that no parent parameter is mapped to -- the
+    unmapped child parameter of the open finding in a PRODUCT (get_terms sums it out as well)"""
+    BASE = RemoveFrontOfPrefix
 
 
 class StatRemoveFrontLW(_StatMixin, RemoveFrontLetterwise):
@@ -286,14 +328,23 @@ class StatRelabel(DisjointUnionStrategy):
         super().__init__(ignore_parent=False, inferrable=True, possibly_empty=False, workable=True)
         self.mode = mode
 
+    @staticmethod
+    def _extra_letter(comb_class):
+        tracked = {l for _, l in comb_class.stats}
+        rest = [l for l in comb_class.alphabet if l not in tracked]
+        return rest[0] if rest else None
+
+    def _stats(self, comb_class):
+        return _child_stats(comb_class.stats, self.mode, None, self._extra_letter(comb_class))
+
     def decomposition_function(self, comb_class):
-        r = _child_stats(comb_class.stats, self.mode)
+        r = self._stats(comb_class)
         if r is None or r[0] == comb_class.stats:
             return None
         return (_with_stats(comb_class, r[0]),)
 
     def extra_parameters(self, comb_class, children=None):
-        return (_child_stats(comb_class.stats, self.mode)[1],)
+        return (self._stats(comb_class)[1],)
 
     def formal_step(self):
         return "relabel statistics (mode %s)" % (self.mode,)
@@ -312,6 +363,50 @@ class StatRelabel(DisjointUnionStrategy):
 
     def __repr__(self):
         return "StatRelabel(%r)" % (self.mode,)
+
+    def __str__(self):
+        return self.formal_step()
+
+
+class StatUnaryProduct(CartesianProductStrategy):
+    """A product with a SINGLE factor: the same words with re-named statistics, as StatRelabel but through
+    the CartesianProduct constructor.  Such a rule is an equivalence (fix 25e10f1): EquivalenceRule gives it
+    a one-child DisjointUnion constructor, an EquivalencePathRule composes it like a union step and its
+    reverse (Quotient) like a Complement step; EquivalenceRule of its reverse has no constructor at all."""
+
+    def __init__(self, mode=2):
+        super().__init__(ignore_parent=False, inferrable=True, possibly_empty=False, workable=True)
+        self.mode = mode
+
+    def decomposition_function(self, comb_class):
+        r = _child_stats(comb_class.stats, self.mode)
+        if r is None or r[0] == comb_class.stats:
+            return None
+        return (_with_stats(comb_class, r[0]),)
+
+    def extra_parameters(self, comb_class, children=None):
+        return (_child_stats(comb_class.stats, self.mode)[1],)
+
+    def formal_step(self):
+        return "relabel statistics as a one-factor product (mode %s)" % (self.mode,)
+
+    def backward_map(self, comb_class, objs, children=None):
+        yield objs[0]
+
+    def forward_map(self, comb_class, obj, children=None):
+        return (obj,)
+
+    def to_jsonable(self):
+        d = super().to_jsonable()
+        d["mode"] = self.mode
+        return d
+
+    @classmethod
+    def from_dict(cls, d):
+        return cls(d.get("mode", 2))
+
+    def __repr__(self):
+        return "StatUnaryProduct(%r)" % (self.mode,)
 
     def __str__(self):
         return self.formal_step()
@@ -433,6 +528,11 @@ STAT_PACKS = {
                                           [StatAtom()], name="stats-factory_cycle"),
     "factory_keep": lambda: StrategyPack([], [], [[StatFactory(None, 0)], [StatExpansion(0), StatRemoveFront(0)]],
                                          [StatAtom()], name="stats-factory_keep"),
+    # the LIBRARY's AtomStrategy on one-word classes that carry statistics: AtomStrategy.get_genf refuses them
+    # (NotImplementedError), so the specification's get_equations() has to emit its placeholder equations
+    "lib_atom": lambda: StrategyPack([StatRemoveFront(0)], [], [[StatExpansion(0)]], [AtomStrategy()], name="stats-lib_atom"),
+    "lib_atom_swap": lambda: StrategyPack([StatRemoveFront(5)], [], [[StatExpansion([0, 5])]], [AtomStrategy()],
+                                          name="stats-lib_atom_swap"),
     # products with >= 3 factors
     "letterwise_cycle": lambda: _pack("letterwise_cycle", [StatRemoveFrontLW(4, 0)], [StatExpansion(0)]),
     "letterwise_mid_swap": lambda: _pack("letterwise_mid_swap", [StatRemoveFrontLW([5, 0], 2)], [StatExpansion(5)]),
@@ -476,11 +576,16 @@ def true_terms(comb_class, n):
 # Trees: a universe whose specifications have NON-LINEAR equation systems
 # (products of non-atom classes), so that sympy.solve returns several branches
 # and get_genf really has to select one by initial conditions.
-#   Tree(arities)   plane trees whose internal nodes have an arity in `arities`
-#                   (all >= 2), written in Polish notation: 'l' leaf, digit k =
-#                   internal node of arity k; SIZE = number of leaves.
-#   Node(arities,k) the trees of Tree(arities) whose root has arity k.
-#   Leaf            the one-leaf tree (atom).
+#   Tree(arities, kind, weights)
+#                   plane trees whose internal nodes have an arity in `arities`,
+#                   written in Polish notation: 'l' leaf, digit k followed by w_k dots =
+#                   internal node of arity k; SIZE = number of leaves + number of dots, i.e.
+#                   an internal node of arity k weighs weights[i] (default 0) where
+#                   arities[i] = k.  Arity 1 needs weight >= 1 (finitely many trees per size).
+#                   T = x + sum_k x^(w_k) T^k : rational for arities (1,), quadratic (square-root
+#                   closed forms, two branches) for arities within {1, 2}, degree >= 3 otherwise.
+#   kind 'tree' | 'leaf' | 'dot' (the atom a weighted node carries) | ('node', k): the trees
+#   whose root has arity k | ('planted', j): j leaves followed by a tree.
 # ---------------------------------------------------------------------------
 from functools import lru_cache  # noqa: E402
 
@@ -490,90 +595,151 @@ from comb_spec_searcher import AtomStrategy  # noqa: E402
 
 class TreeWord(str, CombinatorialObject):
     def size(self):
-        return self.count("l")
+        return self.count("l") + self.count(".")
 
 
 @lru_cache(maxsize=None)
-def _trees(arities, n):
-    """all trees with n leaves"""
+def _trees(shape, n):
+    """all trees of size n; shape = ((arity, weight), ...)"""
     if n <= 0:
         return ()
     out = ["l"] if n == 1 else []
-    for k in arities:
-        out.extend(str(k) + w for w in _forests(arities, k, n))
+    for k, w in shape:
+        out.extend(str(k) + "." * w + f for f in _forests(shape, k, n - w))
     return tuple(out)
 
 
 @lru_cache(maxsize=None)
-def _forests(arities, k, n):
-    """concatenations of k trees with n leaves in total"""
+def _forests(shape, k, n):
+    """concatenations of k trees of total size n"""
     if k == 0:
         return ("",) if n == 0 else ()
     out = []
     for i in range(1, n - (k - 1) + 1):
-        for a in _trees(arities, i):
-            for b in _forests(arities, k - 1, n - i):
+        for a in _trees(shape, i):
+            for b in _forests(shape, k - 1, n - i):
                 out.append(a + b)
     return tuple(out)
 
 
 class Tree(CombinatorialClass):
-    """kind: 'tree' | 'leaf' | ('node', k) | ('planted', j): j leaves followed by a tree"""
+    """kind: 'tree' | 'leaf' | 'dot' | ('node', k) | ('planted', j): j leaves followed by a tree"""
 
-    def __init__(self, arities, kind="tree"):
-        self.arities = tuple(sorted(arities))
+    def __init__(self, arities, kind="tree", weights=()):
+        pairs = sorted(zip(arities, list(weights) + [0] * (len(arities) - len(weights))))
+        self.arities = tuple(k for k, _ in pairs)
+        self.weights = tuple(w for _, w in pairs)
+        assert all(k >= 2 or (k == 1 and w >= 1) for k, w in pairs), "finitely many trees per size"
+        self.shape = tuple(pairs)
         self.kind = tuple(kind) if isinstance(kind, (list, tuple)) else kind
+
+    def weight(self, k):
+        return self.weights[self.arities.index(k)]
 
     def is_empty(self):
         return False
 
     def is_atom(self):
-        return self.kind == "leaf"
+        return self.kind in ("leaf", "dot")
 
     def minimum_size_of_object(self):
-        if self.kind in ("tree", "leaf"):
+        if self.kind in ("tree", "leaf", "dot"):
             return 1
         if self.kind[0] == "planted":
             return self.kind[1] + 1
-        return self.kind[1]
+        return self.kind[1] + self.weight(self.kind[1])
 
     def objects_of_size(self, n, **parameters):
         if self.kind == "leaf":
             if n == 1:
                 yield TreeWord("l")
+        elif self.kind == "dot":
+            if n == 1:
+                yield TreeWord(".")
         elif self.kind == "tree":
-            for w in _trees(self.arities, n):
+            for w in _trees(self.shape, n):
                 yield TreeWord(w)
         elif self.kind[0] == "planted":
             j = self.kind[1]
-            for w in _trees(self.arities, n - j):
+            for w in _trees(self.shape, n - j):
                 yield TreeWord("l" * j + w)
         else:
             k = self.kind[1]
-            for w in _forests(self.arities, k, n):
-                yield TreeWord(str(k) + w)
+            wt = self.weight(k)
+            for w in _forests(self.shape, k, n - wt):
+                yield TreeWord(str(k) + "." * wt + w)
 
     def to_jsonable(self):
         d = super().to_jsonable()
         d["arities"] = list(self.arities)
+        d["weights"] = list(self.weights)
         d["kind"] = list(self.kind) if isinstance(self.kind, tuple) else self.kind
         return d
 
     @classmethod
     def from_dict(cls, d):
-        return cls(d["arities"], d["kind"])
+        return cls(d["arities"], d["kind"], d.get("weights", ()))
 
     def __eq__(self, other):
-        return isinstance(other, Tree) and (self.arities, self.kind) == (other.arities, other.kind)
+        return isinstance(other, Tree) and (self.shape, self.kind) == (other.shape, other.kind)
 
     def __hash__(self):
-        return hash((self.arities, self.kind))
+        return hash((self.shape, self.kind))
 
     def __repr__(self):
+        if any(self.weights):
+            return "Tree(%r, %r, %r)" % (self.arities, self.kind, self.weights)
         return "Tree(%r, %r)" % (self.arities, self.kind)
 
     def __str__(self):
         return repr(self)
+
+    def sibling(self, kind):
+        return Tree(self.arities, kind, self.weights)
+
+
+def tree_counts(arities, weights, kind, nmax):
+    """number of objects of Tree(arities, kind, weights) per size 0..nmax by a recurrence on the
+    counts (no objects are built; independent of the library and of objects_of_size)"""
+    shape = Tree(arities, "tree", weights).shape
+
+    def conv(a, b):
+        out = [0] * (nmax + 1)
+        for i, x in enumerate(a):
+            if x:
+                for j, y in enumerate(b):
+                    if i + j > nmax:
+                        break
+                    out[i + j] += x * y
+        return out
+
+    def shift(a, j):
+        return ([0] * j + a)[: nmax + 1]
+
+    t = [0] * (nmax + 1)
+    for n in range(1, nmax + 1):
+        # t[n] only needs t[< n] (every internal node has >= 2 subtrees or weight >= 1)
+        tot = 1 if n == 1 else 0
+        for k, w in shape:
+            p = [1] + [0] * nmax
+            cur = [x if i < n else 0 for i, x in enumerate(t)]
+            for _ in range(k):
+                p = conv(p, cur)
+            if n - w >= 0:
+                tot += p[n - w]
+        t[n] = tot
+    kind = tuple(kind) if isinstance(kind, (list, tuple)) else kind
+    if kind == "tree":
+        return t
+    if kind in ("leaf", "dot"):
+        return [int(n == 1) for n in range(nmax + 1)]
+    if kind[0] == "planted":
+        return shift(t, kind[1])
+    k = kind[1]
+    p = [1] + [0] * nmax
+    for _ in range(k):
+        p = conv(p, t)
+    return shift(p, dict(shape)[k])
 
 
 class TreeUnion(DisjointUnionStrategy):
@@ -583,7 +749,7 @@ class TreeUnion(DisjointUnionStrategy):
     def decomposition_function(self, c):
         if c.kind != "tree":
             return None
-        return (Tree(c.arities, "leaf"),) + tuple(Tree(c.arities, ("node", k)) for k in c.arities)
+        return (c.sibling("leaf"),) + tuple(c.sibling(("node", k)) for k in c.arities)
 
     def formal_step(self):
         return "a leaf or a root of some arity"
@@ -609,8 +775,9 @@ class TreeProduct(CartesianProductStrategy):
         if not isinstance(c.kind, tuple):
             return None
         if c.kind[0] == "planted":
-            return tuple(Tree(c.arities, "leaf") for _ in range(c.kind[1])) + (Tree(c.arities, "tree"),)
-        return tuple(Tree(c.arities, "tree") for _ in range(c.kind[1]))
+            return tuple(c.sibling("leaf") for _ in range(c.kind[1])) + (c.sibling("tree"),)
+        k = c.kind[1]
+        return tuple(c.sibling("dot") for _ in range(c.weight(k))) + tuple(c.sibling("tree") for _ in range(k))
 
     def formal_step(self):
         return "the subtrees of the root"
@@ -646,3 +813,44 @@ def tree_pack():
 
 
 TREE_STARTS = [(2,), (3,), (2, 3), (2, 4)]
+# (arities, weights) whose equation system has degree <= 2: get_genf can return a closed form.
+# arities (1,): T = x + x^w T, rational; the others: square roots, two branches
+GENF_TREES = [
+    ((2,), (0,)), ((2,), (1,)), ((2,), (2,)), ((1,), (1,)), ((1,), (2,)), ((1,), (3,)),
+    ((1, 2), (1, 0)), ((1, 2), (1, 1)), ((1, 2), (2, 0)), ((1, 2), (2, 1)), ((1, 2), (1, 2)),
+]
+
+
+def word_counts(cls, nmax):
+    """number of words of an AvoidingWithPrefix / StatWord class per size 0..nmax by a transfer
+    recurrence on (last letters -> number of words): no word is built, nothing of the library and
+    nothing of the class's own objects_of_size is used (only prefix, patterns, alphabet,
+    just_prefix).  Patterns are avoided as consecutive factors."""
+    prefix, pats, alphabet = str(cls.prefix), [str(p) for p in cls.patterns], list(cls.alphabet)
+    out = [0] * (nmax + 1)
+    if any(p in prefix for p in pats) or len(prefix) > nmax:
+        return out
+    out[len(prefix)] = 1
+    if cls.just_prefix:
+        return out
+    k = max([len(p) for p in pats] + [1]) - 1
+    state = {(prefix[-k:] if k else ""): 1}
+    for n in range(len(prefix) + 1, nmax + 1):
+        new = {}
+        for suf, c in state.items():
+            for a in alphabet:
+                w = suf + a
+                if any(w.endswith(p) for p in pats):
+                    continue
+                key = w[-k:] if k else ""
+                new[key] = new.get(key, 0) + c
+        state = new
+        out[n] = sum(state.values())
+    return out
+
+
+def independent_counts(cls, nmax):
+    """counts of a univariate class of this universe that use neither the library nor brute force"""
+    if isinstance(cls, Tree):
+        return tree_counts(cls.arities, cls.weights, cls.kind, nmax)
+    return word_counts(cls, nmax)
